@@ -33,6 +33,11 @@ def family (kind : String) (n : Nat) : Option Bytes :=
     | "deepsets" => some (tok 0x34 (ascii "c") [] ++ rep (n - 1) (tok 0x4a [] (ascii "m") ++ tok 0x34 [] []) ++
                           tok 0x4a [] (ascii "m") ++ tok 0x21 [] [0, 0, 0, 1] ++ tok 0x21 [] [0, 0, 0, 2] ++
                           ((List.range n).map fun i => tok 0x37 [] [] ++ (if i + 1 < n then tok 0x21 [] [0, 0, 0, 3] else [])).flatten)
+    | "widethenmany" => some (tok 0x21 (ascii "w") [0, 0, 0, 0] ++ ((List.range n).map fun i => tok 0x21 [] (i32 i)).flatten ++
+                              ((List.range n).map fun i => tok 0x21 (ascii s!"a{i}") [0, 0, 0, 1]).flatten)
+    | "opengroups" => some (((List.range n).map fun i =>
+                              (if i > 0 then [(([1, 2, 4, 5] : List UInt8)[i % 4]!)] else []) ++
+                              tok 0x34 (ascii "c") [] ++ tok 0x4a [] (ascii "m") ++ tok 0x21 [] [0, 0, 0, 1]).flatten)
     | "longfirst" => some (tok 0x41 (ascii "t") (List.replicate 60000 0x61) ++ ((List.range n).map fun i => tok 0x21 [] (i32 i)).flatten)
     | "badnames" =>
         let l := min 16000 (max n 1)
